@@ -37,10 +37,11 @@ VARIABLES l, pre, cur, ev,
           pdefv,      \* defv before the last step
           held,       \* history: per agent, the datagrams (<<pid, len>>) that reached a reader that had stopped reading, in arrival order
           pheld, pgrace, \* held and grace before the last step
+          cut,        \* history: a datagram was used up by a Read into a buffer that was too short (how it is counted is nobody's statement)
           grace,      \* history: per agent, the reader stopped while inside Read: the next datagram still goes straight through
           tickTx,     \* history: per agent, {<<gen, l, r, tid>>} = the requests it sent from its own timer (ordinary checks; a triggered check is sent while a datagram is handled)
           txOK        \* history: per agent, transaction ids of its requests whose success response reached it (signed, from the address asked, within the lifetime)
-vars == <<l, pre, cur, ev, idmap, answered, ucAnswered, nomRx, chk, ltc, acc, acked, iss, base, ledger, pled, nomKind, nomTids, nomLost, tickTx, txOK, defv, pdefv, held, grace, pheld, pgrace>>
+vars == <<l, pre, cur, ev, idmap, answered, ucAnswered, nomRx, chk, ltc, acc, acked, iss, base, ledger, pled, nomKind, nomTids, nomLost, tickTx, txOK, defv, pdefv, held, grace, pheld, pgrace, cut>>
 
 E0 == [a \in Agents |-> {}]
 CountIn(s, x) == Cardinality({k \in 1..Len(s) : s[k] = x})
@@ -61,7 +62,7 @@ Init == /\ l = 2 /\ pre = Tr[1].post /\ cur = Tr[1].post /\ ev = Tr[1]
         /\ answered = E0 /\ ucAnswered = E0 /\ nomRx = E0
         /\ chk = [a \in Agents |-> 0 - 1] /\ ltc = [a \in Agents |-> "Unknown"]
         /\ acc = [a \in Agents |-> NoNom] /\ acked = [a \in Agents |-> 0] /\ iss = NoNom
-        /\ ledger = E0 /\ pled = E0 /\ nomKind = E0 /\ nomTids = {} /\ nomLost = FALSE /\ tickTx = E0 /\ txOK = E0 /\ defv = E0 /\ pdefv = E0 /\ held = [a \in Agents |-> <<>>] /\ grace = [a \in Agents |-> FALSE] /\ pheld = [a \in Agents |-> <<>>] /\ pgrace = [a \in Agents |-> FALSE]
+        /\ ledger = E0 /\ pled = E0 /\ nomKind = E0 /\ nomTids = {} /\ nomLost = FALSE /\ tickTx = E0 /\ txOK = E0 /\ defv = E0 /\ pdefv = E0 /\ held = [a \in Agents |-> <<>>] /\ grace = [a \in Agents |-> FALSE] /\ pheld = [a \in Agents |-> <<>>] /\ pgrace = [a \in Agents |-> FALSE] /\ cut = FALSE
         /\ base = [a \in Agents |-> [key |-> <<>>, tally |-> <<0, 0, 0, 0>>, cnt |-> <<0, 0, 0, 0>>]]
 Step == /\ l <= Len(Tr) /\ l' = l + 1 /\ pre' = cur /\ cur' = Tr[l].post /\ ev' = Tr[l]
         /\ LET e == Tr[l]  reset == e.ev = "Reset" IN
@@ -117,7 +118,9 @@ Step == /\ l <= Len(Tr) /\ l' = l + 1 /\ pre' = cur /\ cur' = Tr[l].post /\ ev' 
            /\ LET toReader(a) == e.ev = "DeliverData" /\ OwnerOfDst(e.d.dst) = a /\ Unwire(e.d.dst) \in Rng(cur[a].locals) /\ KnownIn(cur, a, e.d.src) IN
               /\ grace' = [a \in Agents |-> IF reset THEN FALSE ELSE IF e.ev = "PauseRead" /\ e.ag = a THEN TRUE
                                               ELSE IF toReader(a) \/ (e.ev = "ResumeRead" /\ e.ag = a) THEN FALSE ELSE grace[a]]
+              /\ cut' = (IF reset THEN FALSE ELSE cut \/ (e.ev = "ShortRead" /\ held[e.ag] # <<>>))
               /\ held' = [a \in Agents |-> IF reset \/ (e.ev = "ResumeRead" /\ e.ag = a) THEN <<>>
+                                             ELSE IF e.ev = "ShortRead" /\ e.ag = a /\ held[a] # <<>> THEN Tail(held[a])
                                              ELSE IF toReader(a) /\ cur[a].paused /\ ~grace[a] THEN Append(held[a], <<e.d.pid, e.d.len>>) ELSE held[a]]
            /\ tickTx' = [a \in Agents |->
                  IF reset THEN {}
@@ -417,11 +420,14 @@ C07_DataInert ==
      \A a \in Agents : /\ [AgentView(cur, a) EXCEPT !.rx = <<>>] = [AgentView(pre, a) EXCEPT !.rx = <<>>] /\ NoCallbacks(a)
                         /\ \A r \in DOMAIN cur[a].rx : (cur[a].rx[r] # pre[a].rx[r]) =>
                               (ev.ev = "DeliverData" /\ DataRcv = a /\ r = ev.d.src /\ Known(pre, a, r))
-C07_ConnCounters == \A a \in Agents : cur[a].bsent = cur[a].tally[2] /\ cur[a].brecv = cur[a].tally[4]
+C07_ConnCounters == ~cut => \A a \in Agents : cur[a].bsent = cur[a].tally[2] /\ cur[a].brecv = cur[a].tally[4]
+\* a Read into a buffer shorter than the datagram does not pass the cut datagram off as the datagram: it reports the short buffer
+\* (and with nothing waiting it takes nothing)
+C07_ShortReadReported == ev.ev = "ShortRead" => ev.res = (IF pheld[ev.ag] = <<>> THEN "empty" ELSE "short")
 \* while one pair stays selected, its packet/byte counters advance exactly like the harness tallies
 \* (while the reader lags the pair has counted what the agent accepted and the reader has not returned yet: judged when it has caught up)
 C07_PairCounters ==
-  \A a \in Agents : (cur[a].sel # 0 /\ SelKeyOf(cur, a) = base[a].key /\ ev.ev # "Reset" /\ ~cur[a].paused) =>
+  \A a \in Agents : (cur[a].sel # 0 /\ SelKeyOf(cur, a) = base[a].key /\ ev.ev # "Reset" /\ ~cur[a].paused /\ ~cut) =>
      \A i \in 1..4 : cur[a].selCnt[i] - base[a].cnt[i] = cur[a].tally[i] - base[a].tally[i]
 \* ---------------------------------------------------------------- reporting
 \* Every violated predicate is printed with the trace line it was violated at; the invariant itself never
@@ -478,9 +484,10 @@ P(n) == CASE n = "C01_Mirror" -> C01_Mirror []
         n = "C07_ReadOnlyKnown" -> C07_ReadOnlyKnown []
         n = "C07_DataInert" -> C07_DataInert []
         n = "C07_ConnCounters" -> C07_ConnCounters []
-        n = "C07_PairCounters" -> C07_PairCounters
+        n = "C07_PairCounters" -> C07_PairCounters []
+        n = "C07_ShortReadReported" -> C07_ShortReadReported
 Report == \A n \in Check : P(n) \/ PrintT(<<"VIOL", n, l - 1>>)
-AllPredicates == {"C01_Mirror", "C01_Converges", "C01_NeverWithoutPath", "C02_BadRequestInert", "C02_BadResponseInert", "C02_ErrorInert", "C02_NonBindingInert", "C02_IndicationOnlyLiveness", "C02_UnmatchedResponse", "C02_MatchedOnly", "C02_StaleResponseInert", "C03_SelValidated", "C03_LiteSelectsOnNomination", "C03_NoUCFromControlled", "C03_LiteNeverRequests", "C03_NoDowngrade", "C05_Rule", "C05_OppositeAtEnd", "C06_UniqueIds", "C06_NoDupPairs", "C06_PairsFromCurrent", "C06_SelListed", "C06_IdStable", "C06_RemotesDeduped", "C06_RemoteFilter", "C06_NoResidue", "C06_NoResidueNew", "C06_SupersessionPreserves", "C04_TimingRule", "C04_CheckingDeadline", "C04_LifecycleStrict", "C04_Lifecycle", "C04_FC04Seen", "C04_NotifiedIsActual", "C04_SelWhileConnected", "C04_ReleasedOnFailed", "C20_AcceptMonotone", "C20_StaleIgnored", "C20_SwitchOnValid", "C20_SwitchWhenValidated", "C20_ControllingKeepsNewest", "C20_QuiescentAgreement", "C20_ValueOnWire", "C20_OnlyControllingEnabled", "C07_WriteRoute", "C07_StunShapedConsistent", "C07_NoSTUNWrite", "C07_ReadOnlyKnown", "C07_DataInert", "C07_ConnCounters", "C07_PairCounters"}
+AllPredicates == {"C01_Mirror", "C01_Converges", "C01_NeverWithoutPath", "C02_BadRequestInert", "C02_BadResponseInert", "C02_ErrorInert", "C02_NonBindingInert", "C02_IndicationOnlyLiveness", "C02_UnmatchedResponse", "C02_MatchedOnly", "C02_StaleResponseInert", "C03_SelValidated", "C03_LiteSelectsOnNomination", "C03_NoUCFromControlled", "C03_LiteNeverRequests", "C03_NoDowngrade", "C05_Rule", "C05_OppositeAtEnd", "C06_UniqueIds", "C06_NoDupPairs", "C06_PairsFromCurrent", "C06_SelListed", "C06_IdStable", "C06_RemotesDeduped", "C06_RemoteFilter", "C06_NoResidue", "C06_NoResidueNew", "C06_SupersessionPreserves", "C04_TimingRule", "C04_CheckingDeadline", "C04_LifecycleStrict", "C04_Lifecycle", "C04_FC04Seen", "C04_NotifiedIsActual", "C04_SelWhileConnected", "C04_ReleasedOnFailed", "C20_AcceptMonotone", "C20_StaleIgnored", "C20_SwitchOnValid", "C20_SwitchWhenValidated", "C20_ControllingKeepsNewest", "C20_QuiescentAgreement", "C20_ValueOnWire", "C20_OnlyControllingEnabled", "C07_WriteRoute", "C07_StunShapedConsistent", "C07_NoSTUNWrite", "C07_ReadOnlyKnown", "C07_DataInert", "C07_ConnCounters", "C07_PairCounters", "C07_ShortReadReported"}
 Done == IF TLCGet("stats").diameter = Len(Tr) THEN TRUE
         ELSE Print(<<"MONITOR_STOPPED_AT", TLCGet("stats").diameter, Len(Tr)>>, FALSE)
 ====
